@@ -1211,3 +1211,21 @@ package core
 //@   assert[C04.script_variables_are_read_when_the_action_runs] at "call:RunJavascript": strips > old(strips)
 //@ func (*OttoActionInterpreter).GetThunk$1
 //@   assert[C04.otto_script_variables_are_read_when_the_action_runs] at "call:RunJavascript": strips > old(strips)
+
+// C06/C08: a removal whose own storage operation failed is not reported as a success - neither when it returns at once
+// nor when it goes on to run the cascade first (mark: the cascade was reached with this call's own storage error pending).
+//@ func (*IndexedState).rem
+//@   mark[ownRemoveFailed] at "call:deleteDependencies": stErr && !old(stErr)
+//@   ensures[C06+C08.ix_rem_own_storage_error_is_reported] marked(ownRemoveFailed) ==> result1 != nil
+//@   ensures[C06+C08.ix_rem_storage_error_before_the_cascade_is_reported] stErr && !old(stErr) && cascades == old(cascades) ==> result1 != nil
+//@ func (*LinearState).rem
+//@   mark[ownRemoveFailed] at "call:deleteDependencies": stErr && !old(stErr)
+//@   ensures[C06+C08.lin_rem_own_storage_error_is_reported] marked(ownRemoveFailed) ==> result1 != nil
+//@   ensures[C06+C08.lin_rem_storage_error_before_the_cascade_is_reported] stErr && !old(stErr) && cascades == old(cascades) ==> result1 != nil
+
+// C06/C09: what setParents stores is a list (never nil: a nil list is written as JSON null, which getParents refuses after a
+// reload) with one element per given parent, in order.
+//@ func (*Location).setParents
+//@   assert[C06+C09.setparents_stores_a_list_of_the_given_names] at "call:SetProp": is(callarg(4), []interface{}) && callarg(4).([]interface{}) != nil && len(callarg(4).([]interface{})) == len(parents)
+//@   assert[C06+C09.setparents_stores_the_given_names_in_order] at "call:SetProp": forall(i, int, 0 <= i && i < len(parents) ==> is(callarg(4).([]interface{})[i], string) && callarg(4).([]interface{})[i].(string) == parents[i])
+//@   loop 1: invariant[C06+C09.setparents_loop] len(ps) == len(parents) && ps != nil && forall(i, int, 0 <= i && i <= rangeindex ==> is(ps[i], string) && ps[i].(string) == parents[i])
